@@ -428,6 +428,10 @@ class Model(object):
 
         equation_count = 0
 
+        # Forget the roles found when the graph was last built: they follow from the current equations only
+        for variable in self._name_to_variable.values():
+            variable.type = None
+
         # Add a node for every variable in the model, and set variable types
         for equation in self.equations:
             equation_count += 1
